@@ -167,6 +167,12 @@ func TestC19(t *testing.T) {
 		defer cleanup()
 		src := filepath.Join(dir, "src")
 		Must(tree.Materialize(src), "materialize")
+		if rapid.IntRange(0, 3).Draw(rt, "srcthroughlink") == 0 {
+			// the tree to archive is named by a symbolic link to it ("builds/current -> v42")
+			Must(os.Symlink("src", filepath.Join(dir, "current")), "symlink current")
+			src = filepath.Join(dir, "current")
+			Ev.Probe("source_directory_named_by_a_symlink")
+		}
 		// where the tree is extracted to is the caller's business: the path may lead through a
 		// symbolic link (a mounted volume, "current -> releases/42")
 		destBase := dir
